@@ -19,8 +19,10 @@ META = {
 }
 
 WEIGHTS = [1, 2, 3, 10 ** 6, F(1, 3), F(7, 3), F(1, 10 ** 6), F(999999, 10 ** 6), F(10 ** 6 - 1, 10 ** 6 + 0 - 1), 0.5, 0.1,
-           1 / 3, 0.333, 2.5, 1e-3, 123456.789, 1e6 + 0.5, F(5, 2), 0.25, 7]
-SCORES = [0, 0.0, 1, 2, 0.5, 0.1, 1 / 3, F(1, 3), F(0), F(7, 2), 1e-7, F(1, 10 ** 7), 3.75, F(1, 10 ** 6)]
+           1 / 3, 0.333, 2.5, 1e-3, 123456.789, 1e6 + 0.5, F(5, 2), 0.25, 7,
+           10 ** 18, 2 ** 53 + 1, 2 ** 64 + 3, 1e18, 2.0 ** 53 + 2, 1e9 + 0.5, 123456789.125, F(10 ** 18 + 1, 1)]
+SCORES = [0, 0.0, 1, 2, 0.5, 0.1, 1 / 3, F(1, 3), F(0), F(7, 2), 1e-7, F(1, 10 ** 7), 3.75, F(1, 10 ** 6),
+          10 ** 9, 2 ** 53 + 1, 1e15, 1e9 + 0.25]
 
 
 def exp_num(x):
@@ -51,6 +53,8 @@ def gen_ballot_spec(rnd, cs):
         d["id"] = "id%d" % rnd.randint(0, 5)
     if rnd.random() < 0.2:
         d["vs"] = sorted(rnd.sample(["v1", "v2", "v3"], rnd.randint(1, 2)))
+    if rnd.random() < 0.15:
+        d["np"] = True  # weight and scores handed over as numpy scalars
     return d
 
 
@@ -61,7 +65,7 @@ def enc(d):
         out["r"] = d["r"]
     if "s" in d:
         out["s"] = {c: canon.fs(v) for c, v in d["s"].items()}
-    for k in ("id", "vs"):
+    for k in ("id", "vs", "np"):
         if k in d:
             out[k] = d[k]
     return out
@@ -75,15 +79,26 @@ def dec(e):
         d["r"] = e["r"]
     if "s" in e:
         d["s"] = {c: canon.pf(v) for c, v in e["s"].items()}
-    for k in ("id", "vs"):
+    for k in ("id", "vs", "np"):
         if k in e:
             d[k] = e[k]
     return d
 
 
+def as_np(x):
+    """the same float as a numpy float64 (a subclass of float, hence inside the statement's 'int/float/Fraction'; numpy
+    integers are not ints and stay outside: Fraction(np.int64) keeps a numpy numerator, whose arithmetic can overflow)"""
+    import numpy as np
+    if isinstance(x, float):
+        return np.float64(x)
+    return x
+
+
 def mk(d):
     from votekit import Ballot
 
+    if d.get("np"):
+        d = dict(d, w=as_np(d["w"]), **({"s": {c: as_np(v) for c, v in d["s"].items()}} if "s" in d else {}))
     kw = {"weight": d["w"]}
     if "r" in d:
         kw["ranking"] = tuple(frozenset(g) for g in d["r"])
@@ -342,6 +357,13 @@ def run(ctx):
         cs = gen.cands(ctx.rnd, ctx.rnd.randint(1, 4))
         nb = ctx.rnd.randint(0, 5)
         bl = [gen_ballot_spec(ctx.rnd, cs) for _ in range(nb)]
+        if i % 40 == 7:
+            # beyond hand size: 9-12 candidates, 40-80 ballots repeating a dozen contents in random order
+            cs = ctx.rnd.sample(gen.BIGNAMES, ctx.rnd.randint(9, 12))
+            base = [gen_ballot_spec(ctx.rnd, cs) for _ in range(ctx.rnd.randint(6, 14))]
+            bl = [dict(ctx.rnd.choice(base), w=rnd_num(ctx.rnd, WEIGHTS)) for _ in range(ctx.rnd.randint(40, 80))]
+            nb = len(bl)
+            ctx.count("large_profiles")
         for b in bl:
             if "s" in b:
                 b["s"] = {c: v for c, v in b["s"].items() if exp_num(v) != 0 or v == 0}
